@@ -25,7 +25,8 @@ JudgeFollow(e) ==
   \cup Contract(e)
 
 Judge(e) ==
-  CASE e.ev = "ik"     -> IF e.outcome = "panic" THEN {"C01:panic"} ELSE Contract(e)
+  \* ("abandoned": a call with a previous vector of ~1e9 turns that did not return within two seconds - not judged)
+  CASE e.ev = "ik"     -> IF e.outcome = "panic" THEN {"C01:panic"} ELSE IF e.outcome = "abandoned" THEN {} ELSE Contract(e)
     [] e.ev = "follow" -> IF e.outcome = "panic" THEN {"C01:panic"} ELSE JudgeFollow(e)
     [] e.ev = "reset"  -> {}
     [] OTHER           -> {"unknown-event"}
